@@ -80,3 +80,13 @@ package messages
 //@   modifies nothing
 //@ callsite (*store).Consume -> os.OpenFile(name string, flag int, perm os.FileMode)
 //@   requires [C15] name == statePath && (flag == 2 || notexist(#lastStatErr))
+
+// C15 / C02 ("log truncation never removes a message that has not yet been handed to the delivery scheduler"): the only
+// truncation is maybeTruncate's, which stays behind the consumer. The log is therefore opened without any option (the
+// options of commitlog.Open are retention settings -- a segment count limit drops the oldest segments on roll-over and on
+// open whatever the consumer has persisted).
+//@ func New(datadir string) (l Log, err error)
+//@ trusted func github.com/vx-labs/commitlog.Open(datadir string, segmentMaxRecordCount uint64, opts []commitlog.createOpt) (l commitlog.CommitLog, err error)
+//@   modifies nothing
+//@ callsite New -> github.com/vx-labs/commitlog.Open(datadir string, segmentMaxRecordCount uint64, opts []commitlog.createOpt)
+//@   requires [C15] len(opts) == 0
